@@ -35,16 +35,52 @@ func init() {
 			// a signer that takes longer than a second (a token, an HSM): the clock moves during the call
 			signer = slowSigner{key, time.Duration(d) * time.Millisecond}
 		}
+		if n := atoi(a["busy"]); n > 0 {
+			// a signer that is busy for its first n calls (a token in use) and works afterwards
+			signer = &busySigner{Signer: signer, left: n}
+		}
+		// the caller's own value object: it changes after the call returned (the next update is prepared)
+		mv := &mutValue{b: unhx(a["payload"])}
 		t0 := time.Now().UTC()
-		_, m, err := signature.SignEFIVariable(v, rawValue(unhx(a["payload"])), signer, cert)
+		_, m, err := signature.SignEFIVariable(v, mv, signer, cert)
+		for try := 0; err != nil && try < atoi(a["busy"]); try++ {
+			// the caller asks again, as it would with a busy token
+			t0 = time.Now().UTC()
+			_, m, err = signature.SignEFIVariable(v, mv, signer, cert)
+		}
 		t1 := time.Now().UTC()
 		if err != nil {
 			return "err", err.Error()
+		}
+		if a["mutate"] == "1" {
+			if len(mv.b) > 0 {
+				mv.b[0] ^= 0xff
+			}
+			mv.b = append(mv.b, []byte("-the-next-update")...)
 		}
 		var buf bytes.Buffer
 		m.Marshal(&buf)
 		return "ok", fmt.Sprintf("%s %d %d %s", hx(buf.Bytes()), t0.Unix(), t1.Unix(), hx(m.Bytes()))
 	}
+}
+
+// mutValue is a Marshallable the caller keeps using after the call
+type mutValue struct{ b []byte }
+
+func (r *mutValue) Marshal(b *bytes.Buffer) { b.Write(r.b) }
+func (r *mutValue) Bytes() []byte           { return r.b }
+
+type busySigner struct {
+	crypto.Signer
+	left int
+}
+
+func (s *busySigner) Sign(r io.Reader, digest []byte, opts crypto.SignerOpts) ([]byte, error) {
+	if s.left > 0 {
+		s.left--
+		return nil, fmt.Errorf("token busy")
+	}
+	return s.Signer.Sign(r, digest, opts)
 }
 
 type slowSigner struct {
@@ -80,7 +116,7 @@ func c06Eval(c *Ctx, cs Case) {
 	c.Count(cs.Key(), true, fmt.Sprintf("varsign/%s/%s/payload%s", tz, cs.S("class"), sizeClass(len(payload))))
 	c.Sample(cs)
 	res := c06Worker(c, tz).Do("var.sign", map[string]string{"verif": c.VerifDir, "key": fmt.Sprint(keyIdx), "shape": fmt.Sprint(shape), "name": hx(name), "guid": hx(guid),
-		"attrs": fmt.Sprint(attrs), "payload": hx(payload), "slow": fmt.Sprint(cs.I("slow"))}, 20*time.Second)
+		"attrs": fmt.Sprint(attrs), "payload": hx(payload), "slow": fmt.Sprint(cs.I("slow")), "busy": fmt.Sprint(cs.I("busy")), "mutate": fmt.Sprint(cs.I("mutate"))}, 20*time.Second)
 	fail := func(what, goObs, spec, matcher string) {
 		c.Fail(Failure{Kind: "property", Matcher: matcher, What: what, Case: cs, Go: clip(goObs), Spec: clip(spec)})
 	}
@@ -248,7 +284,7 @@ func c06Gen(c *Ctx) {
 			v := names[(i+n)%len(names)]
 			p := pk[c.Rng.Intn(len(pk))]
 			c06Eval(c, Case{"op": "varsign", "tz": tz, "class": p, "name": hx([]byte(v.name)), "guid": hx(v.guid), "attrs": int64(masks[c.Rng.Intn(len(masks))]),
-				"payload": hx(payloads[p]), "key": int64(c.Rng.Intn(2)), "shape": int64(c.Rng.Intn(9))})
+				"payload": hx(payloads[p]), "key": int64(c.Rng.Intn(2)), "shape": int64(c.Rng.Intn(9)), "mutate": int64(n % 2), "busy": int64([]int{0, 0, 0, 1, 2}[n%5])})
 			i++
 		}
 	}
@@ -263,7 +299,7 @@ func c06Gen(c *Ctx) {
 
 func init() {
 	register("C06", &PropDef{
-		Rule:   "signed updates for the standard secure-boot variables and arbitrary ASCII names (incl. empty and long), the global / image-security / random GUIDs, attribute masks {0x27, 0x67 (APPEND_WRITE), 7, 0, 0x40, all ones}, payloads {empty database, SHA-256 list, certificate list, one byte, 300 raw bytes}, two RSA keys x 9 certificate shapes, each produced in worker processes started with TZ=UTC, Asia/Tokyo, America/St_Johns and Pacific/Auckland (DST zones of both hemispheres), plus updates signed through a crypto.Signer that takes 1.1 s so that the clock moves during the call. Layout is checked by an independent parser, the binding by encoding/asn1+crypto/rsa, go.mozilla.org/pkcs7 and the Lean Spec over the rebuilt buffer and over four wrong buffers; the output is reproduced byte for byte by the Lean model. Every case is non-trivial; distinct = distinct (zone, name, GUID, mask, payload, key, shape).",
+		Rule:   "signed updates for the standard secure-boot variables and arbitrary ASCII names (incl. empty and long), the global / image-security / random GUIDs, attribute masks {0x27, 0x67 (APPEND_WRITE), 7, 0, 0x40, all ones}, payloads {empty database, SHA-256 list, certificate list, one byte, 300 raw bytes}, two RSA keys x 9 certificate shapes, each produced in worker processes started with TZ=UTC, Asia/Tokyo, America/St_Johns and Pacific/Auckland (DST zones of both hemispheres), plus updates signed through a crypto.Signer that takes 1.1 s so that the clock moves during the call; in every second case the caller's value object is changed after the call and before the result is marshalled, and in two of five the signer is busy (returns an error) for its first one or two calls and the caller asks again. Layout is checked by an independent parser, the binding by encoding/asn1+crypto/rsa, go.mozilla.org/pkcs7 and the Lean Spec over the rebuilt buffer and over four wrong buffers; the output is reproduced byte for byte by the Lean model. Every case is non-trivial; distinct = distinct (zone, name, GUID, mask, payload, key, shape).",
 		Assume: []string{"variable names are ASCII (the property's domain); time is bracketed by the worker around the call (±1 s)"},
 		Eval:   c06Eval, Gen: c06Gen,
 	})
